@@ -159,7 +159,9 @@ theorem specData_sound (w : UInt16) (s : Bytes) (d : Data) (k : Nat) (hO : hasOf
 theorem data_reencode_fixed (o : Opts) (b : Bytes) (d : Data) (r : Bytes)
     (h : (decode o : M Bytes (List DErr) Msg) b = .ok (.data d) r) (hO : hasOffset (u16At b 0) = false) :
     ∃ img, encode (.data d) = .ok img ∧
-      (decode Opts.strict : M Bytes (List DErr) Msg) img = .ok (.data d) [] := by
+      (decode Opts.strict : M Bytes (List DErr) Msg) img = .ok (.data d) [] ∧
+      -- the re-decoded value is `d` itself, so its encoding is the same octets: one round is a fixed point
+      (∀ m' q, (decode Opts.strict : M Bytes (List DErr) Msg) img = .ok m' q → encode m' = .ok img) := by
   obtain ⟨n, hs, _⟩ := decode_ok_spec o b _ r h
   obtain ⟨_, _, k, hk⟩ := spec_data_inv o b d n hs
   obtain ⟨hoff, hne, hlen⟩ := specData_sound _ _ d k hO hk
@@ -169,11 +171,17 @@ theorem data_reencode_fixed (o : Opts) (b : Bytes) (d : Data) (r : Bytes)
     rw [hskip]; cases hd : d.data with
     | nil => exact absurd hd hne
     | cons x xs => simp
-  have := C04.data_roundtrip d Opts.strict hpos hlen
-  rw [this]
-  congr 2
-  cases d
-  simp_all [Data.skipN]
+  have hrt := C04.data_roundtrip d Opts.strict hpos hlen
+  have hval : (Msg.data { d with offset := none, data := d.data.drop d.skipN }) = .data d := by
+    congr 1
+    cases d
+    simp_all [Data.skipN]
+  rw [hval] at hrt
+  refine ⟨hrt, ?_⟩
+  intro m' q hm
+  rw [hrt] at hm
+  cases hm
+  exact C04.encode_data d
 
 /-! non-vacuity: a non-canonical control message (reserved bit set, M bit clear, surplus octet, 3 trailing
     octets) is accepted with the checks off and normalised in one step -/
